@@ -82,6 +82,13 @@ def build(s, log, state):
                 return 'not-an-int'   # unserialisable for the eager XML serialisers
             return a + 1
 
+        @srpc(Integer, _evmgr=mev)
+        def h(a):
+            # a method that declares no return value
+            log.append(['fn', 'call'])
+            raise_outcome(inj['fn'], state)
+            state['fnOk'] = True
+
         @srpc(Integer, _returns=(ByteArray if fam == 'http' else Iterable(Integer)), _evmgr=mev)
         def g(a):
             log.append(['fn', 'call'])
@@ -115,7 +122,7 @@ def body_for(s):
     """-> (environ-extras, body bytes).  For wsgi scenarios the body is exactly
     len*UNIT bytes with the padding *inside* the document."""
     fam, cls = s['cfg']['family'], s['req']['class']
-    meth = 'zzz' if cls == 'unknown' else ('g' if s['inj'].get('res') == 'gen' else 'f')
+    meth = 'zzz' if cls == 'unknown' else {'gen': 'g', 'none': 'h'}.get(s['inj'].get('res'), 'f')
     arg = 'notint' if cls == 'badargs' else '5'
     env = {'REQUEST_METHOD': 'POST', 'PATH_INFO': '/', 'QUERY_STRING': '',
            'CONTENT_TYPE': 'text/xml; charset=utf-8'}
@@ -227,6 +234,11 @@ def run(s):
                 def rewrite(ctx):
                     ctx.transport.wsdl = ctx.transport.wsdl.replace(b'http://x', b'https://rewritten.example')
                 w.event_manager.add_listener('wsdl', rewrite)
+        if kind == 'wsdl2':
+            # an earlier request of this transport had the document built (and cached)
+            b''.join(w(dict(env), lambda st, h, e=None: None))
+            del log[:]
+            state['ctx'] = None
         d = s['req']['declared']
         if kind != 'rpc':
             pass
